@@ -117,8 +117,37 @@ def mixed_kernel_cases(tier, seed):
         out.append(l)
         cid, op, rest = l.split(" ", 2)
         # scalar float matrix x vectors of double blocks: same numbers, the model line is the hybrid one (= scalar product)
-        if op == "hspmv": out.append("%sb sbspmv %s" % (cid, rest))
-        if op == "hresid": out.append("%sb sbresid %s" % (cid, rest))
+        t3 = rest.split(" ", 3); divisible = (int(t3[1]) % int(t3[0]) == 0 and int(t3[2]) % int(t3[0]) == 0)
+        if op == "hspmv":
+            out.append("%sb sbspmv %s" % (cid, rest))
+            if divisible: out.append("%sc sspmv %s" % (cid, rest))     # (the model op needs the block view to exist)
+        if op == "hresid":
+            out.append("%sb sbresid %s" % (cid, rest))
+            if divisible: out.append("%sc sresid %s" % (cid, rest))
+    # LONG-MANTISSA vectors: the double vectors get entries a + k*2^-30 (33 significant bits: not representable in
+    # binary32) while the float matrix keeps its short dyadic entries; every product and partial sum still has < 50
+    # bits, so the double computation is exact and must equal the rational model -- unless the kernel accumulates (or
+    # views the vectors) in the precision of the MATRIX instead of the vectors
+    rl = random.Random(seed * 1000 + 134)
+    def longv(tokens):   # tokens of one vector: n v1 .. vn
+        n = int(tokens[0])
+        return [tokens[0]] + [fmt_q(F(t) + F(rl.randint(-8, 8), 2 ** 30)) for t in tokens[1:1 + n]]
+    extra = []
+    for l in out:
+        cid, op, rest = l.split(" ", 2)
+        toks = rest.split(); b = toks[0]; n = int(toks[1]); k = 3
+        for _ in range(n):
+            cnt = int(toks[k]); k += 1 + 2 * cnt
+        head, tail = toks[:k], toks[k:]
+        # (block-valued FLOAT matrices multiply block by block in float -- static_matrix<float> * vector block -- so the
+        #  long-mantissa variant is for the SCALAR float matrix ops only: sspmv / sresid / sbspmv / sbresid)
+        if op in ("sspmv", "sbspmv"):       # x alpha beta y
+            nx = int(tail[0]); x = tail[:1 + nx]; ab = tail[1 + nx:3 + nx]; y = tail[3 + nx:]
+            extra.append(" ".join([cid + "L", op] + head + longv(x) + ab + longv(y)))
+        elif op in ("sresid", "sbresid"):  # f x r
+            nf = int(tail[0]); f_ = tail[:1 + nf]; nx = int(tail[1 + nf]); x = tail[1 + nf:2 + nf + nx]; rr = tail[2 + nf + nx:]
+            extra.append(" ".join([cid + "L", op] + head + longv(f_) + longv(x) + rr))
+    out += extra
     r = random.Random(seed * 1000 + 133)
     for it in range(30 if tier == "quick" else 200):
         b = r.choice([2, 3, 4]); n = r.choice([1, 2, 3, 5])
@@ -192,7 +221,7 @@ def run_mixed_kernels(ctx, lines=None):
     tier, seed = ctx["tier"], ctx["seed"]
     ctx2 = vtmodel.model_ctx(ctx)
     if lines is None: lines = mixed_kernel_cases(tier, seed) + cview_cases()
-    SB = {"sbspmv": "hspmv", "sbresid": "hresid"}
+    SB = {"sbspmv": "hspmv", "sbresid": "hresid", "sspmv": "hspmv", "sresid": "hresid"}
     mlines = [(lambda sp: " ".join([sp[0], SB.get(sp[1], sp[1])] + sp[2:]))(l.split(" ", 2)) for l in lines]
     f, _, _ = diff_run(ctx2, "mixed", lines, shards=8, timeout=300, model_lines=mlines,
                        theorem="correspondence drv_mixed (float blocks x double vectors, re-interpreted) vs Kernels.spmv / residual / vmul at BlockS on BlockSpmv.block_matrix / as_rhs (C13_hybrid_spmv_is_scalar, C13_block_spmv, C13_mixed_precision_view: the vector view does not depend on the matrix precision)")
